@@ -52,7 +52,11 @@ func readTree(root string) map[string]string {
 			if rel != "" {
 				r = rel + "/" + e.Name()
 			}
-			if e.IsDir() {
+			if e.Type()&os.ModeSymlink != 0 {
+				if t, err := os.Readlink(p); err == nil {
+					out[r] = intern(symlinkPrefix + t)
+				}
+			} else if e.IsDir() {
 				walk(p, r)
 			} else {
 				b, err := os.ReadFile(p)
@@ -84,6 +88,12 @@ func writeTree(root string, files map[string]string) {
 				panic(err)
 			}
 			made[d] = true
+		}
+		if strings.HasPrefix(c, symlinkPrefix) {
+			if err := os.Symlink(strings.TrimPrefix(c, symlinkPrefix), full); err != nil {
+				panic(err)
+			}
+			continue
 		}
 		if err := os.WriteFile(full, []byte(c), 0o644); err != nil {
 			panic(err)
